@@ -31,6 +31,7 @@ def rule_single_writer(ctx, rid="single-writer"):
             r.seen()
             r.check(f.qn in ok and f.file in (OUT, "src/unicode.cpp"), "%s<-%s" % (callee, f.qn), db.loc(f, n), "%s is called from %s" % (callee, f.qn))
     a = db.fn("add_char", file=OUT)
+    r.names(a, "ch")
     writes = [n for n in a.all_nodes() if n["k"] == "call" and n.get("c") in ("write_char", "write_string")]
     r.require(len(writes) >= 3, "add_char has %d write calls" % len(writes))
     for n in writes:
